@@ -132,6 +132,30 @@ def run(ctx):
             one('Ljava/lang/%s/%s;' % (segs[0], s2))
     for _ in range(20000 if ctx.quick else 1500000):
         one(gen_desc(rng))
+    # the register summary of a method (dex.get_params_info, printed by EncodedMethod.show / get_bytecodes_method): one line per parameter, in
+    # order, each with the Java name of its type, and the return type
+    import re as _re
+    for _ in range(3000 if ctx.quick else 200000):
+        params = [gen_desc(rng) for _ in range(rng.choice([0, 1, 1, 2, 3, 5]))]
+        params = [p_ if p_.lstrip("[") != "V" else "I" for p_ in params]
+        ret = rng.choice(["V", gen_desc(rng)])
+        nb = sum(2 if p_ in ("J", "D") else 1 for p_ in params) + rng.choice([0, 1, 3, 10])
+        ctx.ev()
+        ctx.count("get_params_info_calls")
+        try:
+            txt = dex.get_params_info(nb, "(%s)%s" % (" ".join(params), ret))
+        except RecursionError:
+            continue
+        except Exception as e:
+            ctx.violation("get_params_info-raises", "dex.get_params_info raises on a valid prototype", {"params": params, "ret": ret, "nb": nb, "exc": exc_str(e)})
+            continue
+        got_p = _re.findall(r"^# - v\d+:(.*)$", txt, _re.M)
+        got_r = _re.findall(r"^# - return:(.*)$", txt, _re.M)
+        okp = len(got_p) == len(params) and all(g in accepted(p_) for g, p_ in zip(got_p, params))
+        okr = len(got_r) == 1 and got_r[0] in accepted(ret)
+        if not (okp and okr):
+            ctx.violation("get_params_info-%s" % ("parameter-types" if not okp else "return-type"), "the register summary does not name every parameter type (in order) and the return type",
+                          {"params": params, "ret": ret, "nb": nb, "got_params": got_p, "got_return": got_r})
     ctx.sample({"desc": "[[Ljava/lang/String;", "accepted": sorted(accepted("[[Ljava/lang/String;"))})
     ctx.sample({"desc": "Ljava/lang/annotation/Foo;", "accepted": sorted(accepted("Ljava/lang/annotation/Foo;"))})
     ctx.require_counter("util.get_type")
@@ -217,7 +241,9 @@ def end_to_end(ctx):
                     c.add_method(nm, OBJ, (OBJ,), ST, W.Code(2, 1, 1, [("invoke-static", [1], W.Mth(t, "g", OBJ, (OBJ,))), ("move-result-object", 0), ("return-object", 0)]))
                 else:
                     c.add_method(nm, OBJ, ("I", "I"), ST, W.Code(3, 2, 2, [("filled-new-array", [1, 2], W.Typ(t)), ("move-result-object", 0), ("return-object", 0)]))
-                bodies.append((nm, form, t))
+                proto = {"cc": (OBJ, (OBJ,)), "io": ("Z", (OBJ,)), "kc": ("Ljava/lang/Class;", ()), "na": (OBJ, ("I",)), "ni": (OBJ, ()), "sg": (OBJ, ()), "iv": (OBJ, (OBJ,)),
+                         "fa": (OBJ, ("I", "I"))}[form]
+                bodies.append((nm, form, t, proto))
             classes.append((cname, sup, ifs, fields, methods, bodies))
         try:
             d = DEX(W.write_dex(m))
@@ -279,7 +305,15 @@ def end_to_end(ctx):
             # types named inside method bodies: cast, instanceof, class constant, array creation, instance creation, static member owner
             BODY_RX = {"cc": r"\(\((.+?)\) p\d+\)", "io": r"\(p\d+ instanceof (.+?)\)", "kc": r"return (.+?);", "na": r"new ([^\s;(){}]+)\[[^\]]+\]", "ni": r"new ([^\s;(){}]+)\(\)",
                        "sg": r"return (.+?)\.f;", "iv": r"return (.+?)\.g\(", "fa": r"new ([^\s;(){}]+) \{"}
-            for nm, form, t in bodies:
+            for nm, form, t, proto in bodies:
+                # the prototype of a method WITH code comes from the descriptor, whatever the body does to the parameter registers (casts, reuse)
+                pm = re.search(r"(\S+) %s\(([^)]*)\)" % nm, src)
+                ctx.count("printed_types_compared", 1 + len(proto[1]))
+                if pm:
+                    gp = [x.strip().rsplit(" ", 1)[0] for x in pm.group(2).split(",") if x.strip()]
+                    if pm.group(1) not in accepted(proto[0]) or len(gp) != len(proto[1]) or any(g not in accepted(pd) for g, pd in zip(gp, proto[1])):
+                        ctx.violation("prototype-of-method-with-code-" + form, "the printed prototype of a method with code differs from its descriptor",
+                                      dict(wit, method=nm, form=form, got=[pm.group(1)] + gp, want=[proto[0]] + list(proto[1])))
                 bm = re.search(r" %s\([^)]*\)\s*\{(.*?)\n    \}" % nm, src, re.S)
                 ctx.count("printed_types_compared")
                 ctx.count("body_types_compared")
